@@ -379,11 +379,15 @@ func emitRealTimeHistory(out *Out, r *Rng) {
 	u := "https://ctx.example/rt.jsonld"
 	var why []string
 	o.docs[u] = &orgEntry{ver: 1, policy: "max-age=2"}
+	t0 := time.Now()
 	d1, _ := loader.LoadDocument(u)
 	o.mu.Lock()
 	o.docs[u] = &orgEntry{ver: 2, policy: "max-age=2"}
 	o.mu.Unlock()
 	d2, _ := loader.LoadDocument(u)
+	if time.Since(t0) > 1200*time.Millisecond {
+		return // the machine stalled between the two loads: the wall-clock premise of this history does not hold, nothing to judge
+	}
 	time.Sleep(2600 * time.Millisecond)
 	d3, _ := loader.LoadDocument(u)
 	if docVersion(d1) != 1 || docVersion(d2) != 1 || docVersion(d3) != 2 {
